@@ -26,6 +26,8 @@ def run(ctx):
                                "what": "max_distance is not attained by the extremal pair of every variant"})
     ctx.correspond("DIST-WHOLE", suites.dist_whole_cases(ctx.rng.fork("whole"), ctx.tier), hb, db, flags=fl,
                    predicate=dc.pred_parts, nontrivial=lambda c, i: i != "0")
+    ctx.correspond("DIST-HEADER-COMBO", suites.dist_header_combo_cases(ctx.rng.fork("combo"), ctx.tier), hb, db, flags=fl,
+                   predicate=dc.pred_parts, nontrivial=lambda c, i: i != "0", coq_sample=4)
     # the other header-distance implementations (no length table, 16x16 Q table, no Q table, pseudo-SIMD body kernels)
     for name in ["nosimd", "embedded", "lowmem", "decq"]:
         hb2 = ctx.harness(name)
